@@ -167,8 +167,18 @@ class MarginLoans(base.LendingStrategy):
     ):
         assert self._exchange_ctx, "Not yet connected with the exchange"
         acc_balances = self._exchange_ctx.account_balances
-        # The margin level doesn't depend on holds, so updates that only change holds can't make it worse.
-        if updated_balances == acc_balances.balances and updated_borrowed == acc_balances.borrowed:
+        # The margin level doesn't depend on holds, and it can't get worse if no debt increases and no net position
+        # (balance - borrowed) decreases. Such updates, like reserving or releasing funds, or rolling back a loan that
+        # was just created, must always be allowed. Otherwise they get rejected when the margin level is already low.
+        symbols = set(updated_balances) | set(updated_borrowed)
+        symbols.update(acc_balances.balances, acc_balances.borrowed)
+        zero = Decimal(0)
+        if all(
+                updated_borrowed.get(symbol, zero) <= acc_balances.borrowed.get(symbol, zero)
+                and updated_balances.get(symbol, zero) - updated_borrowed.get(symbol, zero)
+                >= acc_balances.balances.get(symbol, zero) - acc_balances.borrowed.get(symbol, zero)
+                for symbol in symbols
+        ):
             return
 
         margin_level = self._calculate_margin_level(updated_balances, updated_holds, updated_borrowed)
